@@ -453,39 +453,63 @@ structure QEDraw (α : Type) where
   u : α
   w : α
 
-/-- state `(x, vn)`, `x = log s`. -/
-def hestonQE (o : Ops α) (mu kappa theta sigma rho dt : α) (st : α × α) (d : QEDraw α) : α × α :=
-  let sigma2 := sigma * sigma
-  let rhohat := o.sqrt (1 - rho * rho)
-  let q := o.exp (-kappa * dt)
-  let psic := o.two - o.half
+/-! ### The pieces of the QUADEXP step by name -/
+
+/-- `m = theta + (vn - theta)*Q`, `psi = (c1*vn + c2)/m**2` with `c1`, `c2` as coded -/
+def qeMean (theta q vn : α) : α := theta + (vn - theta) * q
+
+def qePsi (o : Ops α) (kappa theta sigma q vn : α) : α :=
+  (sigma * sigma * q * (1 - q) / kappa * vn + theta * (sigma * sigma) * ((1 - q) * (1 - q)) / o.two / kappa)
+    / (qeMean theta q vn * qeMean theta q vn)
+
+/-- `A = K2 + 0.5*K4` -/
+def qeAconst (o : Ops α) (kappa sigma rho dt : α) : α :=
+  (o.half * dt * (kappa * rho / sigma - o.half) + rho / sigma) + o.half * (o.half * dt * (1 - rho * rho))
+
+/-- `b2 = 2/psi - 1 + sqrt((2/psi)*(2/psi - 1))` -/
+def qeB2 (o : Ops α) (psi : α) : α := o.two / psi - 1 + o.sqrt ((o.two / psi) * (o.two / psi - 1))
+
+/-- `vnp = a*(b + zV)**2`, `a = m/(1 + b2)`, `b = sqrt(b2)` -/
+def qeQuadDraw (o : Ops α) (m b2 w : α) : α := m / (1 + b2) * ((o.sqrt b2 + w) * (o.sqrt b2 + w))
+
+/-- `M = exp(A*b2*a/d)/sqrt(d)`, `d = 1 - 2*A*a` -/
+def qeQuadM (o : Ops α) (a' m b2 : α) : α :=
+  o.exp ((a' * b2 * (m / (1 + b2))) / (1 - o.two * a' * (m / (1 + b2)))) / o.sqrt (1 - o.two * a' * (m / (1 + b2)))
+
+/-- `p = (psi - 1)/(psi + 1)`, `beta = (1 - p)/m` -/
+def qeP (psi : α) : α := (psi - 1) / (psi + 1)
+def qeBeta (p m : α) : α := (1 - p) / m
+
+/-- `vnp = 0 if u <= p else log((1-p)/(1-u))/beta` -/
+def qeExpDraw (o : Ops α) (p beta u : α) : α := if u ≤ p then 0 else o.log ((1 - p) / (1 - u)) / beta
+
+/-- `M = p + beta*(1-p)/(beta - A)` -/
+def qeExpM (p beta a' : α) : α := p + beta * (1 - p) / (beta - a')
+
+/-- `mu*dt + K0 + (K1*vn + K2*vnp) + sqrt(K3*vn + K4*vnp)*zS`, `K0 = -log(M) - (K1 + 0.5*K3)*vn` -/
+def qeLogIncr (o : Ops α) (mu kappa sigma rho dt vn vnp mM zS : α) : α :=
   let k1 := o.half * dt * (kappa * rho / sigma - o.half) - rho / sigma
   let k2 := o.half * dt * (kappa * rho / sigma - o.half) + rho / sigma
   let k3 := o.half * dt * (1 - rho * rho)
   let k4 := o.half * dt * (1 - rho * rho)
-  let a' := k2 + o.half * k4
-  let c1 := sigma2 * q * (1 - q) / kappa
-  let c2 := theta * sigma2 * ((1 - q) * (1 - q)) / o.two / kappa
-  let x := st.1
-  let vn := st.2
-  let zS := rho * d.n1 + rhohat * d.n2
-  let m := theta + (vn - theta) * q
-  let psi := (c1 * vn + c2) / (m * m)
-  let r : α × α :=      -- (vnp, M)
-    if psi ≤ psic then
-      let b2 := o.two / psi - 1 + o.sqrt ((o.two / psi) * (o.two / psi - 1))
-      let a := m / (1 + b2)
-      let b := o.sqrt b2
-      let vnp := a * ((b + d.w) * (b + d.w))
-      let dd := 1 - o.two * a' * a
-      (vnp, o.exp ((a' * b2 * a) / dd) / o.sqrt dd)
-    else
-      let p := (psi - 1) / (psi + 1)
-      let beta := (1 - p) / m
-      let vnp := if d.u ≤ p then 0 else o.log ((1 - p) / (1 - d.u)) / beta
-      (vnp, p + beta * (1 - p) / (beta - a'))
-  let k0 := -(o.log r.2) - (k1 + o.half * k3) * vn
-  (x + (mu * dt + k0 + (k1 * vn + k2 * r.1) + o.sqrt (k3 * vn + k4 * r.1) * zS), r.1)
+  mu * dt + (-(o.log mM) - (k1 + o.half * k3) * vn) + (k1 * vn + k2 * vnp) + o.sqrt (k3 * vn + k4 * vnp) * zS
+
+/-- state `(x, vn)`, `x = log s`: one step as coded, written with the pieces above (`psic = 1.5` is spelled `2.0 - 0.5`,
+the same double). -/
+def hestonQE (o : Ops α) (mu kappa theta sigma rho dt : α) (st : α × α) (d : QEDraw α) : α × α :=
+  let q := o.exp (-kappa * dt)
+  let a' := qeAconst o kappa sigma rho dt
+  let zS := rho * d.n1 + o.sqrt (1 - rho * rho) * d.n2
+  let m := qeMean theta q st.2
+  let psi := qePsi o kappa theta sigma q st.2
+  if psi ≤ o.two - o.half then
+    let b2 := qeB2 o psi
+    let vnp := qeQuadDraw o m b2 d.w
+    (st.1 + qeLogIncr o mu kappa sigma rho dt st.2 vnp (qeQuadM o a' m b2) zS, vnp)
+  else
+    let p := qeP psi
+    let vnp := qeExpDraw o p (qeBeta p m) d.u
+    (st.1 + qeLogIncr o mu kappa sigma rho dt st.2 vnp (qeExpM p (qeBeta p m) a') zS, vnp)
 
 /-- asset path of scheme QUADEXP (initial price first) -/
 def hestonPathQE (o : Ops α) (s0 v0 mu kappa theta sigma rho dt : α) (ds : List (QEDraw α)) : List α :=
